@@ -737,6 +737,18 @@ class UnprintableError(Exception):
         return "UnprintableError()"
 
 
+class PayloadError(Exception):
+    """An application error giving attribute access to its payload: unknown attributes raise KeyError, not AttributeError
+    (`def __getattr__(self, k): return self.payload[k]`)."""
+
+    def __init__(self, msg):
+        super().__init__(msg)
+        self.payload = {"code": 7}
+
+    def __getattr__(self, k):
+        return self.__dict__["payload"][k]
+
+
 class PathCarryingError(Exception):
     """A non-library exception that happens to have `path` / `locations` attributes of its own
     (like ImportError.path or jsonschema's ValidationError.path)."""
